@@ -1,7 +1,7 @@
 (* Extraction for the C06 correspondence driver: ExtrOcamlBasic only; N/positive/nat stay
    extracted inductives.  compile_raw_g is compile_raw with the ghost "no stale cache hit" flag
    (Proofs/TopDownSem.v, erased by compile_raw_g_erase); the driver runs both and reports a
-   cleared flag. *)
+   cleared flag (C06_no_stale_cache_hit proves it never is). *)
 From Coq Require Import Extraction ExtrOcamlBasic NArith List.
 From RsddV Require Import Base.Bdd Model.UnitProp Model.TopDown Proofs.TopDownSem.
 Extraction Language OCaml.
